@@ -70,6 +70,7 @@ pub fn run(tier: &str) -> i32 {
     // (members with @builtin are left out: the Rust struct has no field for them, so "every field at its WGSL
     // offset" is not well defined for what follows; C05 covers their assertion literals)
     all.extend(crate::c05::io_host_space().into_iter().filter(|p| !p.key.contains("variant=2")));
+    all.extend(lookalike_space());
     // member / element types written through `alias` declarations
     {
         let n0 = all.len();
